@@ -429,6 +429,9 @@ func checkC08(c *Ctx) *core.Result {
 			r.Fail("V4", core.QualName(bl), expr, p.Pos(ret.Pos()), "the table test is reachable with an empty fingerprint (probe \"0\")")
 		}
 	}
+	// ---- V5: the text that is analysed is the API argument itself
+	apiInputUnchangedRule(p, r, "V5", root)
+
 	// isKeyword → searchKeyword(key, keyword table) → map lookup
 	kwOK := false
 	for _, ci := range ssax.Calls(isKw) {
@@ -500,7 +503,7 @@ func checkC08(c *Ctx) *core.Result {
 	}
 
 	r.Analysed = append(r.Analysed, core.QualName(root), core.QualName(chk), core.QualName(lookup), core.QualName(cfp), core.QualName(bl), core.QualName(pass), core.QualName(isKw))
-	r.Explanation = "E5 path rules on the SSA/CFG of the decision layer. V1: each return of IsSQLi is (verdict known false, \"\") or (verdict known true, load of the state's fingerprint field after check() with no intervening writer). V2: every path of check() to a non-false return takes the fired edge of a `lookup(fingerprint-mode) != 0` test and calls no (transitive) writer of the fingerprint field afterwards. V3: in fingerprint mode lookup is non-zero only on the true edge of checkFingerprint(), which is true only if blacklist() is. V4: blacklist() is `keywordTable(probe) == 'F'`, reached only with len(fingerprint) ≥ 1. V5 (shape of every 'F' key: 0+1..5 class characters, comment class only last) is decided by C20/T2-fp on the same tree. V6: the fingerprint field is stored only in the pass function, from a builder fed with token category bytes, or the constant \"X\". NOT decided: that the probe built in blacklist() is exactly \"0\"+upper(fingerprint) (flow through strings.Builder), and that fold() computes the right tokens (input→output behaviour)."
+	r.Explanation = "E5 path rules on the SSA/CFG of the decision layer. V5: every string the API function hands to a module function or stores is its own argument, unchanged (a trimmed, converted or sliced copy would make verdict and fingerprint those of another string). V1: each return of IsSQLi is (verdict known false, \"\") or (verdict known true, load of the state's fingerprint field after check() with no intervening writer). V2: every path of check() to a non-false return takes the fired edge of a `lookup(fingerprint-mode) != 0` test and calls no (transitive) writer of the fingerprint field afterwards. V3: in fingerprint mode lookup is non-zero only on the true edge of checkFingerprint(), which is true only if blacklist() is. V4: blacklist() is `keywordTable(probe) == 'F'`, reached only with len(fingerprint) ≥ 1. V5 (shape of every 'F' key: 0+1..5 class characters, comment class only last) is decided by C20/T2-fp on the same tree. V6: the fingerprint field is stored only in the pass function, from a builder fed with token category bytes, or the constant \"X\". NOT decided: that the probe built in blacklist() is exactly \"0\"+upper(fingerprint) (flow through strings.Builder), and that fold() computes the right tokens (input→output behaviour)."
 	r.Trusted = []string{"go/ssa", "edge-dominance by reachability with the edge removed", "field-writer closure over the VTA call graph", "C20/T2-fp for the shape of black-listed keys"}
 	return r
 }
@@ -516,4 +519,77 @@ func isLenOfField(a *Anchors, v ssa.Value, role string) bool {
 		return false
 	}
 	return a.loadsField(c.Common().Args[0], role)
+}
+
+// apiInputUnchangedRule: every string the API function passes on (to a module
+// function, or into a field) is its string parameter itself.
+func apiInputUnchangedRule(p *core.Program, r *core.Result, rule string, root *ssa.Function) {
+	if root == nil {
+		return
+	}
+	prm := apiStringParam(root)
+	if prm == nil {
+		r.Fail(rule, core.QualName(root), "API input parameter", p.Pos(root.Pos()), "no string parameter (undecided)")
+		return
+	}
+	same := func(v ssa.Value) bool {
+		for d := 0; d < 4; d++ {
+			if ct, ok := v.(*ssa.ChangeType); ok {
+				v = ct.X
+				continue
+			}
+			break
+		}
+		return v == ssa.Value(prm)
+	}
+	n := 0
+	for _, b := range root.Blocks {
+		for _, ins := range b.Instrs {
+			switch x := ins.(type) {
+			case ssa.CallInstruction:
+				callee := x.Common().StaticCallee()
+				if callee == nil || !p.InModule(callee) {
+					continue
+				}
+				for _, arg := range x.Common().Args {
+					if !isStringType(arg.Type()) {
+						continue
+					}
+					if _, isConst := arg.(*ssa.Const); isConst {
+						continue
+					}
+					n++
+					expr := "text handed to " + callee.Name()
+					if same(arg) {
+						r.OK(rule, core.QualName(root), expr, p.Pos(x.Pos()), "the API argument itself")
+					} else {
+						r.Fail(rule, core.QualName(root), expr, p.Pos(x.Pos()), "the API function analyses "+ssax.Canon(arg)+", not its argument: verdict and fingerprint are those of another string")
+					}
+				}
+			case *ssa.Store:
+				if !isStringType(x.Val.Type()) {
+					continue
+				}
+				if _, isConst := x.Val.(*ssa.Const); isConst {
+					continue
+				}
+				if _, isField := x.Addr.(*ssa.FieldAddr); !isField {
+					continue
+				}
+				n++
+				expr := "text stored into " + ssax.Canon(x.Addr)
+				if same(x.Val) {
+					r.OK(rule, core.QualName(root), expr, p.Pos(x.Pos()), "the API argument itself")
+				} else if lf, ok := ssax.LoadedField(x.Val); ok && lf.Field != "" {
+					// copying a result field (the fingerprint) is not the analysed text
+					n--
+				} else {
+					r.Fail(rule, core.QualName(root), expr, p.Pos(x.Pos()), "the API function stores "+ssax.Canon(x.Val)+", not its argument, as the text to analyse")
+				}
+			}
+		}
+	}
+	if n == 0 {
+		r.Fail("vacuity", core.QualName(root), rule+" text hand-over", p.Pos(root.Pos()), "the API function hands its argument to no module function (undecided)")
+	}
 }
